@@ -13,7 +13,7 @@ from hgsim.util import canon, digest
 
 ID = "C13"
 LEVEL = "fault_enumeration"
-BUDGET = {"quick": (8, 28, 45), "thorough": (16, 700, 600)}
+BUDGET = {"quick": (8, 70, 90), "thorough": (16, 700, 600)}
 RULE = (
     "seeded general programs, top-level run and map, both runners; a run with two healthy recorders gives the event count n; then a failing "
     "processor is injected for every event index k<n (all k up to 60 in the thorough tier; up to 14 spread indices in the quick tier) as a sync "
